@@ -16,7 +16,7 @@ LEVEL_NOTE = ("Trusted: Lean kernel, standard axioms only; the hand-written mirr
               "only observe or raise (they do not mutate the tree); asynchronous exceptions between the two statements "
               "of an ATOMIC block and mixed NodeMixin/LightNodeMixin trees are outside the model; non-node arguments to "
               "LightNodeMixin classes are outside the model.")
-MODULES = ['Anytree.Props.C01', 'Anytree.Props.C01b', 'Anytree.Props.C01c']
+MODULES = ['Anytree.Props.C01', 'Anytree.Props.C01b', 'Anytree.Props.C01c', 'Anytree.Props.C01d']
 THEOREMS = [
     ("Anytree.Props.C01.inv_empty", "full"),
     ("Anytree.Props.C01.inv_detachRaw", "full"),
@@ -41,8 +41,10 @@ THEOREMS = [
     ("Anytree.Props.C01.no_assertion_history", "full"),
     ("Anytree.Props.C01c.spec_ne_diverged", "full"),
     ("Anytree.Props.C01c.fuel_suffices", "full"),
+    ("Anytree.Props.C01d.fuel_suffices_faults", "full"),
+    ("Anytree.Props.C01d.fuel_suffices_oneshot", "full"),
 ]
-NOT_COVERED = ["fuel_suffices is proved for calls without hook faults (C01c.fuel_suffices: fuel s.n+5 is never exhausted); with faults the restore recursion of the children setter takes one level per scheduled fault (argued informally; a persistent fault really recurses for ever: K4_persistent_preAttachChildren_diverges); the loop check is proved never to run dry above s.n (Inv.chain_lt, Inv.onChain_some)"]
+NOT_COVERED = ["the fuel of the mirror is proved never to be the reason for an outcome when the fault schedule is bounded (C01d.fuel_suffices_faults: faults only at invocation counters below B, fuel above s.n+B+5; C01c.fuel_suffices without faults); for an unbounded (persistent) schedule no fuel suffices, and the implementation agrees: RecursionError, finding K4 (K4_persistent_preAttachChildren_diverges)"]
 ASSERTION_SETTINGS = (False, True)
 PREDICATE_SPEC = True
 RULE = ("histories = (ops building one of all ordered labelled forests over k nodes, quick k=3 / thorough k=4) + one "
